@@ -335,7 +335,7 @@ fn exceeded(u: &Usage, l: &Limits) -> Vec<&'static str> {
         if u.merge_keys > b.max_merge_keys {
             v.push("merge");
         }
-        if b.enforce_ratio && u.aliases >= b.ratio_min_aliases && (u.anchors == 0 || u.aliases > b.ratio_multiplier.saturating_mul(u.anchors)) {
+        if b.enforce_ratio && u.aliases >= b.ratio_min_aliases && u.aliases > b.ratio_multiplier.saturating_mul(u.anchors) {
             v.push("ratio");
         }
     }
